@@ -277,11 +277,12 @@ COPY_ROUTES = {
 class RealWorld:
     """Executes the same commands as lean/Driver/Heap.lean on real fsic objects."""
 
-    def __init__(self):
+    def __init__(self, snap=True):
         self.classes = {}
         self.roots = {}
         self.snaps = []
         self.keep = []
+        self.snap = snap
 
     def exec(self, cmd):
         c = cmd['c']
@@ -301,10 +302,12 @@ class RealWorld:
         elif c == 'copy':
             self.roots[cmd['r']] = COPY_ROUTES[cmd.get('route', 'method')](self.roots[cmd['of']])
         elif c == 'op':
-            apply_op(self.roots[cmd['r']], cmd['op'])
+            apply_op(self.classes[cmd['r']] if cmd['r'] in self.classes else self.roots[cmd['r']], cmd['op'])
         elif c == 'sub':
             self.roots[cmd['r']] = self.roots[cmd['of']].submodels[cmd['key']]
         elif c == 'snap':
+            if not self.snap:
+                return
             objs = [(r, self.classes[r] if r in self.classes else self.roots[r]) for r in cmd['roots']]
             self.snaps.append(snapshot(objs))
         else:
@@ -360,11 +363,12 @@ def observe(x, depth=0):
 
 
 def diff_paths(a, b, path='', out=None, limit=6):
-    """Paths at which two observations differ (for violation messages)."""
+    """Paths at which two observations differ (for violation messages and violation keys)."""
     out = [] if out is None else out
     if len(out) >= limit or a == b:
         return out
-    if isinstance(a, tuple) and isinstance(b, tuple) and len(a) == len(b) and a[:1] == b[:1]:
+    if isinstance(a, tuple) and isinstance(b, tuple) and len(a) == len(b) and \
+            not (a and isinstance(a[0], str) and a[0] != b[0]):
         for i, (x, y) in enumerate(zip(a, b)):
             if x != y:
                 label = str(x[0]) if isinstance(x, tuple) and len(x) == 2 and isinstance(x[0], str) else str(i)
